@@ -75,6 +75,12 @@ func (c *compiler) compile() (string, error) {
 }
 
 func (c *compiler) write(bb *strings.Builder, i interface{}) {
+	if rv := reflect.ValueOf(i); rv.Kind() == reflect.Ptr && rv.IsNil() {
+		// a nil pointer prints nothing, whatever methods its type has (a value
+		// method called through it would panic)
+		return
+	}
+
 	switch t := i.(type) {
 	case time.Time:
 		if dtf, ok := c.ctx.Value("TIME_FORMAT").(string); ok {
